@@ -4,6 +4,7 @@ from harness.common import facts as F
 from harness.c20 import extract as X
 
 ID = 'C20'
+DEPENDS = ['C04']     # Proofs/C20_commit.v imports Model/C04.v
 HERE = os.path.dirname(os.path.abspath(__file__))
 CASES = {'quick': 4000, 'thorough': 60000}
 PARALLEL = False
